@@ -1,0 +1,279 @@
+//go:build verif
+
+// Contracts for package rewards (C13 block rewards within pulled amount / yearly schedule,
+// C02 minting hooks, C03 withdraw debits, C18 index and division safety).
+// Comment-only file, read by /verif/govc.
+
+package rewards
+
+// ---------------------------------------------------------------- vocabulary (cumulative store)
+//
+// cum(rws)[k]   : the amount recorded under state key k of the cumulative store (total distributed,
+//                 matured balance "…balance_<addr>", withdrawn "…withdrawn_<addr>")
+// yCount(rws)   : number of reward years recorded under "…ydist"
+// yDist(rws)[y] : Distributed of reward year y,  yTill(rws)[y] : TillLastCycle of reward year y
+// rwBalKey / rwWdrKey / rwTotKey : the keys the code builds
+//@ model cum(*RewardCumulativeStore) array[string]int
+//@ model yCount(*RewardCumulativeStore) int
+//@ model yDist(*RewardCumulativeStore) array[int]int
+//@ model yTill(*RewardCumulativeStore) array[int]int
+//@ ghost func rwBalKey(prefix bytes, v bytes) string = str(prefix) + "balance" + "_" + addrStr(str(v))
+//@ ghost func rwWdrKey(prefix bytes, v bytes) string = str(prefix) + "withdrawn" + "_" + addrStr(str(v))
+//@ ghost func rwTotKey(prefix bytes) string = str(prefix) + "tdist"
+
+// typed view of the store's State prefix: assumed (rests on C09 State contracts and T-SER
+// round-tripping of Amount), like balance.get/set. Everything above is proved against these.
+// (On the error path the real get returns a nil amt; no caller in the repository reads amt when
+// err != nil, and the contract says "fresh" unconditionally as balance.get does.)
+//@ assume func (*RewardCumulativeStore).get
+//@   modifies nothing
+//@   ensures amt != nil && fresh(amt)
+//@   ensures err == nil ==> big(amt) == cum(rws)[str(key)]
+
+//@ func (*RewardCumulativeStore).getBalanceKey
+//@   modifies nothing
+//@   ensures str(result) == rwBalKey(rws.prefix, validator)                                                   // C13.keys
+
+//@ func (*RewardCumulativeStore).getWithdrawnKey
+//@   modifies nothing
+//@   ensures str(result) == rwWdrKey(rws.prefix, validator)                                                   // C13.keys
+
+//@ func (*RewardCumulativeStore).getTotalDistributedKey
+//@   modifies nothing
+//@   ensures str(result) == rwTotKey(rws.prefix)                                                              // C13.keys
+
+// set stores either an amount (*balance.Amount) or the year table (RewardYears) under key.
+//@ assume func (*RewardCumulativeStore).set
+//@   modifies cum(rws)[str(key)], yCount(rws), yDist(rws), yTill(rws), vHas(rws.state), vVal(rws.state)
+//@   ensures err != nil ==> cum(rws)[str(key)] == old(cum(rws))[str(key)] && yCount(rws) == old(yCount(rws)) && yDist(rws) == old(yDist(rws)) && yTill(rws) == old(yTill(rws))
+//@   ensures dyntype(amts, "*balance.Amount") ==> yCount(rws) == old(yCount(rws)) && yDist(rws) == old(yDist(rws)) && yTill(rws) == old(yTill(rws))
+//@   ensures err == nil && dyntype(amts, "*balance.Amount") ==> cum(rws)[str(key)] == big(unbox(amts, "*balance.Amount"))
+//@   ensures dyntype(amts, "RewardYears") ==> cum(rws)[str(key)] == old(cum(rws))[str(key)]
+//@   ensures err == nil && dyntype(amts, "RewardYears") ==> yCount(rws) == len(unbox(amts, "RewardYears").Years)
+//@   ensures err == nil && dyntype(amts, "RewardYears") ==> forall i int :: 0 <= i && i < yCount(rws) ==> yDist(rws)[i] == big(unbox(amts, "RewardYears").Years[i].Distributed) && yTill(rws)[i] == big(unbox(amts, "RewardYears").Years[i].TillLastCycle)
+
+// ---------------------------------------------------------------- matured balance / withdrawn (C13 "never withdraw more than matured")
+
+//@ func (*RewardCumulativeStore).AddMaturedBalance
+//@   safety C18
+//@   requires rws != nil && amount != nil                                                                      // C18.nil-amount
+//@   assumes len(addrStr(str(validator))) >= 0                                                                 // A-STRLEN a string length is non-negative (not emitted by the engine for results of ghost functions)
+//@   modifies cum(rws)[rwBalKey(rws.prefix, validator)], vHas(rws.state), vVal(rws.state)
+//@   ensures result == nil ==> cum(rws)[rwBalKey(rws.prefix, validator)] == old(cum(rws))[rwBalKey(rws.prefix, validator)] + big(amount)   // C13.matured-delta
+//@   ensures result != nil ==> cum(rws)[rwBalKey(rws.prefix, validator)] == old(cum(rws))[rwBalKey(rws.prefix, validator)]                 // C13.matured-delta
+//@   ensures cum(rws)[rwTotKey(rws.prefix)] == old(cum(rws))[rwTotKey(rws.prefix)]                                                           // C13.keys-disjoint
+
+//@ func (*RewardCumulativeStore).minusRewardsBalance
+//@   safety C18
+//@   requires rws != nil && amount != nil                                                                      // C18.nil-amount
+//@   modifies cum(rws)[rwBalKey(rws.prefix, validator)], vHas(rws.state), vVal(rws.state)
+//@   ensures result == nil ==> cum(rws)[rwBalKey(rws.prefix, validator)] == old(cum(rws))[rwBalKey(rws.prefix, validator)] - big(amount)   // C13.matured-delta
+//@   ensures result == nil ==> old(cum(rws))[rwBalKey(rws.prefix, validator)] >= big(amount)                                               // C13.withdraw-le-matured
+//@   ensures result != nil ==> cum(rws)[rwBalKey(rws.prefix, validator)] == old(cum(rws))[rwBalKey(rws.prefix, validator)]                 // C13.matured-delta
+
+//@ func (*RewardCumulativeStore).addWithdrawnRewards
+//@   safety C18
+//@   requires rws != nil && amount != nil                                                                      // C18.nil-amount
+//@   modifies cum(rws)[rwWdrKey(rws.prefix, validator)], vHas(rws.state), vVal(rws.state)
+//@   ensures result == nil ==> cum(rws)[rwWdrKey(rws.prefix, validator)] == old(cum(rws))[rwWdrKey(rws.prefix, validator)] + big(amount)   // C13.withdrawn-delta
+//@   ensures result != nil ==> cum(rws)[rwWdrKey(rws.prefix, validator)] == old(cum(rws))[rwWdrKey(rws.prefix, validator)]                 // C13.withdrawn-delta
+
+// WithdrawRewards: the validator's matured balance goes down by exactly the amount, never below zero,
+// and the withdrawn counter goes up by the same amount. A negative amount would *raise* the matured
+// balance, hence the sign precondition (the handler must establish it).
+//@ func (*RewardCumulativeStore).WithdrawRewards
+//@   safety C18
+//@   requires rws != nil && amount != nil                                                                      // C18.nil-amount
+//@   requires big(amount) >= 0                                                                                 // C13.withdraw-sign
+//@   modifies cum(rws)[rwBalKey(rws.prefix, validator)], cum(rws)[rwWdrKey(rws.prefix, validator)], vHas(rws.state), vVal(rws.state)
+//@   ensures result == nil ==> old(cum(rws))[rwBalKey(rws.prefix, validator)] >= big(amount)                                               // C13.withdraw-le-matured
+//@   ensures result == nil ==> cum(rws)[rwBalKey(rws.prefix, validator)] == old(cum(rws))[rwBalKey(rws.prefix, validator)] - big(amount)   // C13.withdraw-le-matured
+//@   ensures result == nil ==> cum(rws)[rwWdrKey(rws.prefix, validator)] == old(cum(rws))[rwWdrKey(rws.prefix, validator)] + big(amount)   // C13.withdrawn-delta
+//@   ensures cum(rws)[rwBalKey(rws.prefix, validator)] <= old(cum(rws))[rwBalKey(rws.prefix, validator)]                                   // C13.withdraw-le-matured
+
+// ---------------------------------------------------------------- year table
+//
+// typed getter of the year table (assumed: Exists/Get + T-SER decoding; the lazily created initial
+// table of initRewardYears is the table yCount/yDist/yTill describe, so reading never changes it).
+//@ assume func (*RewardCumulativeStore).GetYearDistributedRewards
+//@   modifies vHas(rws.state), vVal(rws.state)
+//@   ensures fresh(arr(rewardYears.Years))
+//@   ensures err == nil ==> len(rewardYears.Years) == yCount(rws) && yCount(rws) >= 0
+//@   ensures err == nil ==> forall i int :: 0 <= i && i < yCount(rws) ==> rewardYears.Years[i].Distributed != nil && rewardYears.Years[i].TillLastCycle != nil && big(rewardYears.Years[i].Distributed) == yDist(rws)[i] && big(rewardYears.Years[i].TillLastCycle) == yTill(rws)[i]
+//@   ensures forall i int :: 0 <= i && i < len(rewardYears.Years) ==> fresh(rewardYears.Years[i].Distributed) && fresh(rewardYears.Years[i].TillLastCycle)
+
+//@ func (*RewardCumulativeStore).addTotalDistributedRewards
+//@   safety C18
+//@   requires rws != nil && amount != nil                                                                      // C18.nil-amount
+//@   modifies cum(rws)[rwTotKey(rws.prefix)], vHas(rws.state), vVal(rws.state)
+//@   ensures result == nil ==> cum(rws)[rwTotKey(rws.prefix)] == old(cum(rws))[rwTotKey(rws.prefix)] + big(amount)   // C02.minted-delta
+//@   ensures result != nil ==> cum(rws)[rwTotKey(rws.prefix)] == old(cum(rws))[rwTotKey(rws.prefix)]                 // C02.minted-delta
+
+// year y's Distributed grows by exactly the consumed amount; TillLastCycle is only moved at the last block of a cycle
+//@ func (*RewardCumulativeStore).addYearDistributedRewards
+//@   safety C18
+//@   requires rws != nil && amount != nil                                                                      // C18.nil-amount
+//@   requires 0 <= year && year < yCount(rws)                                                                  // C18.year-index
+//@   modifies yCount(rws), yDist(rws), yTill(rws), vHas(rws.state), vVal(rws.state)
+//@   ensures yCount(rws) == old(yCount(rws))                                                                   // C13.year-delta
+//@   ensures result == nil ==> yDist(rws)[year] == old(yDist(rws))[year] + big(amount)                         // C13.year-delta
+//@   ensures result == nil && lastInCycle ==> yTill(rws)[year] == yDist(rws)[year]                             // C13.year-delta
+//@   ensures result == nil && !lastInCycle ==> yTill(rws)[year] == old(yTill(rws))[year]                       // C13.year-delta
+//@   ensures result == nil ==> forall i int :: 0 <= i && i < yCount(rws) && i != year ==> yDist(rws)[i] == old(yDist(rws))[i] && yTill(rws)[i] == old(yTill(rws))[i]   // C13.year-delta
+//@   ensures result != nil ==> yDist(rws) == old(yDist(rws)) && yTill(rws) == old(yTill(rws))                  // C13.year-delta
+
+// ---------------------------------------------------------------- calculator
+//
+// Everything that goes through float64 (seconds per cycle, forecast of remaining blocks) and the
+// Tendermint block store is uninterpreted: only the integer part is under contract.
+
+// reads block times from the Tendermint block store (external dependency, not in /repo): assumed frame only
+//@ assume func (*RewardCalculator).secondsPerCycleLatest
+//@   modifies nothing
+
+// fcBlocks(calc): ghost record of the last forecast "number of more blocks before year close"
+//@ model fcBlocks(*RewardCalculator) int
+
+// the forecast is 0 exactly when every reward year is over (index -1); otherwise the index is a valid year
+//@ func (*RewardCalculator).numofMoreBlocksBeforeYearClose
+//@   safety C18
+//@   requires calc != nil && calc.options != nil                                                               // C18.nil-options
+//@   modifies fcBlocks(calc)
+//@   update fcBlocks(calc) := result0
+//@   ensures (result0 != 0) == (0 <= result1 && result1 < len(calc.rewardYears.Years))                         // C18.year-index
+//@   ensures result0 == 0 ==> result1 == 0 - 1                                                                 // C13.burnout
+//@   ensures fcBlocks(calc) == result0                                                                         // C13.schedule
+//@   invariant loop1: 0 <= $i && $i <= len(calc.rewardYears.Years) && numofMoreBlocks == 0   // C18.year-index
+
+// yearLeft(calc, y): what is left of year y's supply at the start of the running cycle, for the year table the calculator holds
+//@ ghost func yearLeft(calc *RewardCalculator, y int) int = calc.options.YearBlockRewardShares[y] - big(calc.rewardYears.Years[y].TillLastCycle)
+
+// cacheOK(calc): the cached per-block amount is within the schedule for the year table the calculator
+// currently holds (what Calculate establishes whenever it recalculates; needed when it reuses the cache):
+// with a positive forecast n of remaining blocks, 0 <= amount and amount*n <= yearLeft.
+//@ ghost func cacheOK(calc *RewardCalculator) bool = (calc.cached.burnedout ==> big(calc.cached.amount) == calc.options.BurnoutRate) && (!calc.cached.burnedout ==> 0 <= calc.cached.year && calc.cached.year < len(calc.rewardYears.Years) && (fcBlocks(calc) > 0 ==> 0 <= big(calc.cached.amount) && big(calc.cached.amount) * fcBlocks(calc) <= yearLeft(calc, calc.cached.year)))
+
+//@ func (*RewardCalculator).Calculate
+//@   safety C18
+//@   requires calc != nil && calc.options != nil && calc.cached.amount != nil && allocated(calc.cached.amount)   // C18.nil-options
+//@   requires calc.options.BlockSpeedCalculateCycle != 0                                                       // C18.div-zero
+//@   requires len(calc.rewardYears.Years) == len(calc.options.YearBlockRewardShares)                           // C18.year-index
+//@   requires forall i int :: 0 <= i && i < len(calc.rewardYears.Years) ==> calc.rewardYears.Years[i].TillLastCycle != nil && allocated(calc.rewardYears.Years[i].TillLastCycle)   // C18.nil-amount
+//@   requires calc.cached.cycleNo > 0 && (calc.cached.burnedout || @go_rem(wrap64(calc.height - 1), calc.options.BlockSpeedCalculateCycle) != 0) ==> cacheOK(calc)   // C13.cache-inv
+//@   modifies calc.cached, *calc.cached.amount, fcBlocks(calc)
+//@   ensures amt != nil && fresh(amt) && calc.cached.amount == old(calc.cached.amount)                        // C13.schedule
+//@   ensures err == nil && calc.cached.burnedout ==> big(amt) == calc.options.BurnoutRate                      // C13.burnout
+//@   ensures err == nil && !calc.cached.burnedout ==> 0 <= calc.cached.year && calc.cached.year < len(calc.rewardYears.Years)   // C18.year-index
+//@   ensures err == nil && !calc.cached.burnedout && fcBlocks(calc) > 0 ==> forall y int :: y == calc.cached.year ==> 0 <= big(amt) && big(amt) * fcBlocks(calc) <= old(yearLeft(calc, y))   // C13.schedule
+//@   ensures err == nil && !calc.cached.burnedout && fcBlocks(calc) > 0 ==> forall y int :: y == calc.cached.year ==> big(amt) <= old(yearLeft(calc, y))   // C13.schedule
+//@   ensures err == nil ==> big(amt) == big(calc.cached.amount)                                                // C13.cache-inv
+
+// ---------------------------------------------------------------- PullRewards / ConsumeRewards (the two per-block hooks)
+//
+// cumCacheOK(rws): store-level form of cacheOK, against the recorded year table (yTill) instead of the
+// pointers of one decoded copy. Established by PullRewards whenever it recalculates; preserved by
+// ConsumeRewards except at the last block of a cycle (after which the next block recalculates).
+//@ ghost func cumCacheOK(rws *RewardCumulativeStore) bool = (rws.calculator.cached.burnedout ==> big(rws.calculator.cached.amount) == rws.rewardOptions.BurnoutRate) && (!rws.calculator.cached.burnedout ==> 0 <= rws.calculator.cached.year && rws.calculator.cached.year < yCount(rws) && (fcBlocks(rws.calculator) > 0 ==> 0 <= big(rws.calculator.cached.amount) && big(rws.calculator.cached.amount) * fcBlocks(rws.calculator) <= rws.rewardOptions.YearBlockRewardShares[rws.calculator.cached.year] - yTill(rws)[rws.calculator.cached.year]))
+
+// pulledOK: what PullRewards guarantees about the amount it returns (also the invariant of its logging loop,
+// whose boxing of integers makes the engine havoc the integer heap)
+//@ ghost func pulledOK(rws *RewardCumulativeStore, amount *balance.Amount, poolAmt *balance.Amount) bool = (rws.calculator.cached.burnedout ==> big(amount) <= big(poolAmt) && big(amount) <= rws.rewardOptions.BurnoutRate && (big(poolAmt) >= 0 && rws.rewardOptions.BurnoutRate >= 0 ==> big(amount) >= 0)) && (!rws.calculator.cached.burnedout ==> 0 <= rws.calculator.cached.year && rws.calculator.cached.year < yCount(rws) && (fcBlocks(rws.calculator) > 0 ==> 0 <= big(amount) && big(amount) * fcBlocks(rws.calculator) <= rws.rewardOptions.YearBlockRewardShares[rws.calculator.cached.year] - yTill(rws)[rws.calculator.cached.year] && big(amount) <= rws.rewardOptions.YearBlockRewardShares[rws.calculator.cached.year] - yTill(rws)[rws.calculator.cached.year])) && (rws.calculator.cached.cycleNo > 0 ==> cumCacheOK(rws))
+
+// lastPulled(rws): ghost record of the amount the last successful PullRewards returned
+//@ model lastPulled(*RewardCumulativeStore) int
+
+//@ func (*RewardCumulativeStore).PullRewards
+//@   safety C18
+//@   requires rws != nil && rws.calculator != nil && rws.rewardOptions != nil && rws.calculator.options == rws.rewardOptions && rws.calculator.cached.amount != nil && allocated(rws.calculator.cached.amount) && poolAmt != nil   // C18.nil-options
+//@   requires rws.rewardOptions.BlockSpeedCalculateCycle != 0                                                  // C18.div-zero
+//@   requires yCount(rws) == len(rws.rewardOptions.YearBlockRewardShares)                                      // C18.year-index
+//@   requires rws.calculator.cached.cycleNo > 0 && (rws.calculator.cached.burnedout || @go_rem(wrap64(height - 1), rws.rewardOptions.BlockSpeedCalculateCycle) != 0) ==> cumCacheOK(rws)   // C13.cache-inv
+//@   modifies *rws.calculator, *rws.calculator.cached.amount, fcBlocks(rws.calculator), lastPulled(rws), vHas(rws.state), vVal(rws.state)
+//@   update lastPulled(rws) := big(amount)
+//@   ensures rws.calculator.options == old(rws.calculator.options) && rws.calculator.cached.amount == old(rws.calculator.cached.amount) && (err == nil ==> rws.calculator.height == height)   // C13.schedule
+//@   ensures err == nil ==> amount != nil && fresh(amount) && lastPulled(rws) == big(amount)                   // C13.schedule
+//@   ensures err == nil && rws.calculator.cached.burnedout ==> big(amount) <= big(poolAmt) && big(amount) <= rws.rewardOptions.BurnoutRate   // C13.burnout-capped
+//@   ensures err == nil && rws.calculator.cached.burnedout && big(poolAmt) >= 0 && rws.rewardOptions.BurnoutRate >= 0 ==> big(amount) >= 0   // C13.burnout-capped
+//@   ensures err == nil && !rws.calculator.cached.burnedout ==> 0 <= rws.calculator.cached.year && rws.calculator.cached.year < yCount(rws)   // C18.year-index
+//@   ensures err == nil && !rws.calculator.cached.burnedout && fcBlocks(rws.calculator) > 0 ==> 0 <= big(amount) && big(amount) * fcBlocks(rws.calculator) <= rws.rewardOptions.YearBlockRewardShares[rws.calculator.cached.year] - yTill(rws)[rws.calculator.cached.year]   // C13.schedule
+//@   ensures err == nil && !rws.calculator.cached.burnedout && fcBlocks(rws.calculator) > 0 ==> big(amount) <= rws.rewardOptions.YearBlockRewardShares[rws.calculator.cached.year] - yTill(rws)[rws.calculator.cached.year]   // C13.schedule
+//@   ensures err == nil && rws.calculator.cached.cycleNo > 0 ==> cumCacheOK(rws)                               // C13.cache-inv
+//@   invariant loop1: 0 <= $i && $i <= len(rewardYears.Years)                                                  // C18.year-index
+//@   invariant loop1: amount != nil && pulledOK(rws, amount, poolAmt)                                          // C13.schedule
+
+// ConsumeRewards: the total-distributed counter and the running year's Distributed grow by exactly the
+// consumed amount; TillLastCycle moves only at the last block of a cycle, so the cached per-block amount
+// stays within "what was left when the cycle began" for the rest of the cycle.
+//@ func (*RewardCumulativeStore).ConsumeRewards
+//@   safety C18
+//@   requires rws != nil && rws.calculator != nil && consumed != nil && allocated(rws.calculator.cached.amount)   // C18.nil-amount
+//@   requires !rws.calculator.cached.burnedout ==> rws.calculator.options != nil && rws.calculator.options.BlockSpeedCalculateCycle != 0   // C18.div-zero
+//@   requires !rws.calculator.cached.burnedout ==> 0 <= rws.calculator.cached.year && rws.calculator.cached.year < yCount(rws)   // C18.year-index
+//@   modifies cum(rws)[rwTotKey(rws.prefix)], yCount(rws), yDist(rws), yTill(rws), vHas(rws.state), vVal(rws.state)
+//@   ensures yCount(rws) == old(yCount(rws))                                                                   // C13.year-delta
+//@   ensures result == nil ==> cum(rws)[rwTotKey(rws.prefix)] == old(cum(rws))[rwTotKey(rws.prefix)] + big(consumed)   // C02.minted-delta
+//@   ensures cum(rws)[rwTotKey(rws.prefix)] == old(cum(rws))[rwTotKey(rws.prefix)] || cum(rws)[rwTotKey(rws.prefix)] == old(cum(rws))[rwTotKey(rws.prefix)] + big(consumed)   // C02.minted-delta
+//@   ensures result == nil && !rws.calculator.cached.burnedout ==> yDist(rws)[rws.calculator.cached.year] == old(yDist(rws))[rws.calculator.cached.year] + big(consumed)   // C13.year-delta
+//@   ensures rws.calculator.cached.burnedout ==> forall i int :: 0 <= i && i < yCount(rws) ==> yDist(rws)[i] == old(yDist(rws))[i] && yTill(rws)[i] == old(yTill(rws))[i]   // C13.year-delta
+//@   ensures forall i int :: 0 <= i && i < yCount(rws) && i != rws.calculator.cached.year ==> yDist(rws)[i] == old(yDist(rws))[i] && yTill(rws)[i] == old(yTill(rws))[i]   // C13.year-delta
+//@   ensures !rws.calculator.cached.burnedout && @go_rem(rws.calculator.height, rws.calculator.options.BlockSpeedCalculateCycle) != 0 ==> yTill(rws)[rws.calculator.cached.year] == old(yTill(rws))[rws.calculator.cached.year]   // C13.cycle-start
+//@   ensures old(cumCacheOK(rws)) && (rws.calculator.cached.burnedout || @go_rem(rws.calculator.height, rws.calculator.options.BlockSpeedCalculateCycle) != 0) ==> cumCacheOK(rws)   // C13.cache-inv
+
+// ================================================================ interval reward store (store.go) and master store (init.go)
+//
+// rwd(rs)[k]   : amount recorded under key k of the interval reward store (one record per validator and interval)
+// rwdTotal(rs) : ghost running total of all interval records
+// rwdKey(rs, a, h): the key of validator a's record for the interval that contains height h (depends on the stored
+//                interval table, which only UpdateOptions changes: uninterpreted)
+//@ model rwd(*RewardStore) array[string]int
+//@ model rwdTotal(*RewardStore) int
+//@ ghost func rwdKey(rs *RewardStore, a bytes, h int) string
+//@ ghost func rwdMaturedKey(rs *RewardStore, a bytes, h int) string
+
+// typed view of the State prefix (assumed: State.Get/Set + T-SER; the key construction scans the interval table
+// with State.IterateRange, which is not under contract)
+// GetWithHeight cannot fail: State.Get never returns an error (it falls back to ChainState.Get, whose error is always
+// nil: C09) and the stored bytes were written by SetWithHeight with the same serializer (T-SER round trip).
+//@ assume func (*RewardStore).GetWithHeight
+//@   modifies nothing
+//@   ensures amount != nil && fresh(amount)
+//@   ensures err == nil && big(amount) == rwd(rs)[rwdKey(rs, address, height)]
+
+//@ assume func (*RewardStore).SetWithHeight
+//@   modifies rwd(rs)[rwdKey(rs, address, height)], vHas(rs.State), vVal(rs.State)
+//@   ensures result == nil ==> rwd(rs)[rwdKey(rs, address, height)] == big(amount)
+//@   ensures result != nil ==> rwd(rs)[rwdKey(rs, address, height)] == old(rwd(rs))[rwdKey(rs, address, height)]
+
+//@ assume func (*RewardStore).GetMaturedAmount
+//@   modifies nothing
+//@   ensures result0 != nil && fresh(result0)
+//@   ensures result1 == nil ==> big(result0) == rwd(rs)[rwdMaturedKey(rs, address, height)]
+
+// the list of addresses that ever received a reward (presence markers only)
+//@ assume func (*RewardStore).AddAddressToList
+//@   modifies vHas(rs.State), vVal(rs.State)
+
+//@ model rwdListCount(*RewardStore) int
+//@ assume func (*RewardStore).IterateAddrList
+//@   iterator
+//@   modifies nothing
+//@   count rwdListCount(rs)
+//@   yields true
+
+// AddToAddress: the record of (address, interval of height) grows by exactly the amount (or nothing changes on a write error).
+// (The code would overwrite the record with the amount alone if the READ of the previous value failed; that read cannot
+// fail, see GetWithHeight.)
+//@ func (*RewardStore).AddToAddress
+//@   safety C18
+//@   requires rs != nil && amount != nil                                                                       // C18.nil-amount
+//@   modifies rwd(rs)[rwdKey(rs, address, height)], rwdTotal(rs), vHas(rs.State), vVal(rs.State)
+//@   update rwdTotal(rs) := old(rwdTotal(rs)) + (rwd(rs)[rwdKey(rs, address, height)] - old(rwd(rs))[rwdKey(rs, address, height)])
+//@   ensures result == nil ==> rwd(rs)[rwdKey(rs, address, height)] == old(rwd(rs))[rwdKey(rs, address, height)] + big(amount)   // C13.credit-delta
+//@   ensures result != nil ==> rwd(rs)[rwdKey(rs, address, height)] == old(rwd(rs))[rwdKey(rs, address, height)]   // C13.credit-delta
+//@   ensures rwdTotal(rs) - old(rwdTotal(rs)) == rwd(rs)[rwdKey(rs, address, height)] - old(rwd(rs))[rwdKey(rs, address, height)]   // C13.credit-delta
+//@   ensures old(rwd(rs))[rwdKey(rs, address, height)] >= 0 && big(amount) >= 0 ==> 0 <= rwdTotal(rs) - old(rwdTotal(rs)) && rwdTotal(rs) - old(rwdTotal(rs)) <= big(amount) && rwd(rs)[rwdKey(rs, address, height)] >= 0   // C13.credit-delta
+
+//@ func (*RewardMasterStore).WithState
+//@   requires rwz != nil && rwz.Reward != nil && rwz.RewardCm != nil
+//@   modifies rwz.Reward.State, rwz.RewardCm.state
+//@   ensures result == rwz && rwz.Reward.State == state && rwz.RewardCm.state == state
